@@ -173,6 +173,16 @@ type relProp struct {
 // finderSemantics decides, on all paths of a receipt-key finder with unexported helpers inlined, that the value returned
 // is exactly: "" when the key (and its backup) is absent; otherwise the text from just behind `key:` to the next space
 // (or to the end when there is none), optionally cut to the width parameter under `width > 0 && len(value) > width`.
+func nStringParams(fn *ssa.Function) int {
+	n := 0
+	for _, p := range fn.Params {
+		if bt, ok := p.Type().Underlying().(*types.Basic); ok && bt.Info()&types.IsString != 0 {
+			n++
+		}
+	}
+	return n
+}
+
 func finderSemantics(c *core.Ctx, rel, name string, truncates bool) {
 	key := rel + "." + name
 	fn := c.Prog.SSAFunc(c.Prog.LookupFunc(rel, name))
@@ -221,6 +231,41 @@ func finderSemantics(c *core.Ctx, rel, name string, truncates bool) {
 		}
 		return out
 	}
+	notFoundSoFar := func(w *paths.Walker) map[string]bool {
+		out := map[string]bool{}
+		for _, e := range w.Events() {
+			if e.Kind != paths.EvBranch {
+				continue
+			}
+			bo, ok := e.Cond.(*ssa.BinOp)
+			if !ok || !isIntType(bo.X.Type()) {
+				continue
+			}
+			l, ok1 := fe.num(bo.X, e.Resolve, 0)
+			r, ok2 := fe.num(bo.Y, e.Resolve, 0)
+			if !ok1 || !ok2 {
+				continue
+			}
+			d := l.Add(r, -1)
+			if len(d.T) != 1 {
+				continue
+			}
+			op := bo.Op
+			if !e.Taken {
+				op = map[token.Token]token.Token{token.LSS: token.GEQ, token.GEQ: token.LSS, token.GTR: token.LEQ, token.LEQ: token.GTR, token.EQL: token.NEQ, token.NEQ: token.EQL}[op]
+			}
+			for a, kf := range d.T {
+				if kf != 1 || !strings.HasPrefix(a, "IDX(") {
+					continue
+				}
+				v := -d.C
+				if (op == token.EQL && v == -1) || (op == token.LSS && v == 0) || (op == token.LEQ && v == -1) {
+					out[a] = true
+				}
+			}
+		}
+		return out
+	}
 	decide := func(w *paths.Walker, cond ssa.Value) int {
 		bo, ok := cond.(*ssa.BinOp)
 		if !ok {
@@ -249,6 +294,37 @@ func finderSemantics(c *core.Ctx, rel, name string, truncates bool) {
 				case strings.HasPrefix(a, "LENK(") || a == "LEN":
 				default:
 					known = false
+				}
+			}
+			if len(d.T) == 1 {
+				// the same search tested again: the outcome is the one already established on this path
+				for a, kf := range d.T {
+					if kf != 1 || !strings.HasPrefix(a, "IDX(") {
+						continue
+					}
+					v := -d.C
+					var isFoundTest, polarity bool // polarity: the condition being true means "found"
+					switch {
+					case (bo.Op == token.NEQ && v == -1) || (bo.Op == token.GEQ && v == 0) || (bo.Op == token.GTR && v == -1):
+						isFoundTest, polarity = true, true
+					case (bo.Op == token.EQL && v == -1) || (bo.Op == token.LSS && v == 0) || (bo.Op == token.LEQ && v == -1):
+						isFoundTest, polarity = true, false
+					}
+					if !isFoundTest {
+						continue
+					}
+					if found[a] {
+						if polarity {
+							return 1
+						}
+						return -1
+					}
+					if notFoundSoFar(w)[a] {
+						if polarity {
+							return -1
+						}
+						return 1
+					}
 				}
 			}
 			if !known || len(d.T) < 2 {
@@ -415,6 +491,34 @@ func finderSemantics(c *core.Ctx, rel, name string, truncates bool) {
 			nEmpty++
 			if res.kind != ssEmpty {
 				startP = append(startP, "a path on which no key was found returns "+res.String()+" instead of the empty string")
+			}
+			// with a backup spelling: "absent" is answered only after the backup was searched too, or where there is none
+			if nStringParams(fn) >= 3 {
+				backupSearched, noBackup := false, false
+				for _, k := range notFound {
+					if strings.HasPrefix(k, "K2") {
+						backupSearched = true
+					}
+				}
+				for _, e := range p.Events {
+					if e.Kind != paths.EvBranch {
+						continue
+					}
+					bo, ok := e.Cond.(*ssa.BinOp)
+					if !ok || (bo.Op != token.EQL && bo.Op != token.NEQ) || (bo.Op == token.EQL) != e.Taken {
+						continue
+					}
+					for _, pair := range [][2]ssa.Value{{bo.X, bo.Y}, {bo.Y, bo.X}} {
+						if e.Resolve(pair[0]) == ssa.Value(fn.Params[2]) {
+							if k, isK := pair[1].(*ssa.Const); isK && k.Value != nil && k.Value.Kind() == constant.String && constant.StringVal(k.Value) == "" {
+								noBackup = true
+							}
+						}
+					}
+				}
+				if !backupSearched && !noBackup {
+					startP = append(startP, "a key is reported absent without its backup spelling having been searched (and without `backup == \"\"` established)")
+				}
 			}
 			continue
 		}
